@@ -90,7 +90,10 @@ def run(ctx):
     if ne is not None:
         r = [s for s in ast.walk(ne.node) if isinstance(s, ast.Return)]
         txt = norm_stmt(r[0].value).replace(" ", "") if r else ""
-        if txt in ("notself==other", "not(self==other)", "notself.__eq__(other)"):
+        oth = [a.arg for a in ne.node.args.args if a.arg != "self"]
+        o = oth[0] if oth else "other"
+        if txt in (f"notself=={o}", f"not(self=={o})", f"notself.__eq__({o})",
+                   f"not{o}==self", f"not({o}==self)"):
             ctx.ok("C02.R1", "__ne__", sample=txt)
         else:
             ctx.fail("C02.R1", "__ne__", ne.file, ne.node.lineno, ne.qual,
